@@ -215,11 +215,20 @@ def find(repo):
         # module-level containers; one that starts with entries counts
         # only when a function stores into it by subscript (a slot table
         # such as {"key": None, "value": None})
+        def _container(v):
+            if isinstance(v, (ast.Dict, ast.List, ast.Set)):
+                return not (isinstance(v, (ast.List, ast.Set)) and v.elts)
+            # set(), dict(), list(), OrderedDict(), defaultdict(list), ...
+            return isinstance(v, ast.Call) and (call_name(v) or "").split(
+                ".")[-1] in ("set", "dict", "list", "OrderedDict",
+                             "defaultdict", "WeakKeyDictionary",
+                             "WeakValueDictionary", "deque") and not any(
+                isinstance(a, (ast.List, ast.Dict, ast.Set, ast.Tuple))
+                and getattr(a, "elts", getattr(a, "keys", None))
+                for a in v.args)
         tables = {n for n, vals in m.assigns.items()
-                  if n not in REGISTRIES and n != "__all__" and isinstance(
-                      vals[-1], (ast.Dict, ast.List, ast.Set))
-                  and not (isinstance(vals[-1], (ast.List, ast.Set))
-                           and vals[-1].elts)}
+                  if n not in REGISTRIES and n != "__all__"
+                  and _container(vals[-1])}
         prefilled = {n for n in tables
                      if isinstance(m.assigns[n][-1], ast.Dict)
                      and m.assigns[n][-1].keys}
